@@ -113,9 +113,8 @@ Definition em_merge_events (tbl : list (string * em_kind)) (events : list em_eve
 
 (* ---------- handlers of the bridge tags ---------- *)
 
-(* TagAddBurnTicket: the handler calls addBurnTicket on element 0 of the decoded slice - one row for the first ticket of the merged event *)
-Definition em_burn_tickets_stored (merged : list em_item) : list em_item :=
-  match merged with [] => [] | t :: _ => [t] end.
+(* TagAddBurnTicket: the handler calls addBurnTicket for every ticket of the merged event - one row each *)
+Definition em_burn_tickets_stored (merged : list em_item) : list em_item := merged.
 
 (* TagAuthorizerBurn: total_burn of the burner += amount, for every item of the merged event *)
 Fixpoint em_total (key : Z) (items : list em_item) : Z :=
